@@ -915,6 +915,69 @@ def gen_c13_file(rng, tier):
             "writer": rng.choice(["mido", "raw"])}
 
 
+def gen_c13_endurance(rng, sizes=(45000, 60000)):
+    """'never accumulating along the track': one very long track (10^5 notes, 2*10^5 messages) at a resolution whose scaling
+    factor 24/tpb has no short decimal expansion, tiny deltas. A drift of 10^-6 tick per message is invisible on any ordinary
+    file and moves events by more than half a tick here."""
+    tpb = rng.choice([7, 13, 360, 9, 11, 14, 26, 28, 33, 44, 52, 72, 88, 104, 180, 720, 1024, 17, 19, 21, 23, 1000, 96])
+    min_len = -(-2 * tpb // PPQN) + 1
+    n = rng.choice(sizes)
+    gap = rng.choice([0, 1, 1, 2])
+    length = min_len + rng.choice([0, 0, 1])
+    evs = [{"tick": 0, "k": "ts", "num": 3, "den": 4}]
+    t = rng.randrange(0, 5)
+    ch = rng.randrange(16)
+    as_on0 = rng.random() < 0.5
+    for i in range(n):
+        p = 30 + i % 60
+        evs.append({"tick": t, "k": "on", "ch": ch, "pitch": p, "vel": 1 + i % 127})
+        evs.append({"tick": t + length, "k": "off", "ch": ch, "pitch": p, "as_on0": as_on0 and i % 2 == 0, "vel": 0})
+        t += length + gap
+    return {"tpb": tpb, "tracks": [evs], "groups": [[0]], "meta": [0], "target": 0, "writer": rng.choice(["mido", "raw"]),
+            "endurance": True}
+
+
+def gen_c13_neartie(rng):
+    """Drift-sensitive file: a high resolution (legal SMF divisions go up to 32767) whose reduced denominator q is large,
+    note events placed on file ticks whose exact position is 1/(2q) (or 1/q) away from a rounding tie, and many small-delta
+    filler messages in between. An accumulated error of a few 1e-5 ticks - invisible anywhere else - moves an event to the
+    wrong side of the tie here, i.e. more than half a tick from its exact position; float64 noise (~1e-8 over such a track)
+    does not."""
+    from math import gcd
+    tpb = rng.choice([997, 1009, 4093, 9973, 12007, 32749, 32767, 15360, 10000, 7919])
+    g = gcd(PPQN, tpb)
+    q, p_ = tpb // g, PPQN // g
+    inv = pow(p_, -1, q)
+    lo_r = q // 2 if q % 2 else q // 2 - 1          # just below the tie
+    hi_r = q // 2 + 1                                # just above the tie
+    t_lo, t_hi = (lo_r * inv) % q, (hi_r * inv) % q
+    # t_lo / t_hi lie anywhere in [0, q), i.e. up to p_ library ticks into their period: a period of p_ + 3 or more library
+    # ticks keeps every note at least 2 library ticks long after rounding
+    step = q * (1 + -(-3 // p_))
+    evs = [{"tick": 0, "k": "ts", "num": 4, "den": 4}]
+    ch = rng.randrange(16)
+    notes = rng.choice([30, 60, 120])
+    fill = rng.choice([10, 30, 60])
+    t = 0
+    for k in range(notes):
+        on = t_lo + (2 * k + 1) * step if rng.random() < 0.5 else t_hi + (2 * k + 1) * step
+        off = (t_hi if rng.random() < 0.5 else t_lo) + (2 * k + 2) * step
+        for target, kind in ((on, "on"), (off, "off")):
+            # filler messages with tiny deltas up to the target tick
+            span = target - t
+            if span > fill:
+                pts = sorted(rng.sample(range(1, span), fill))
+                for x in pts:
+                    evs.append({"tick": t + x, "k": "pc", "ch": ch, "prog": x % 128})
+            if kind == "on":
+                evs.append({"tick": target, "k": "on", "ch": ch, "pitch": 30 + k % 60, "vel": 1 + k % 127})
+            else:
+                evs.append({"tick": target, "k": "off", "ch": ch, "pitch": 30 + k % 60, "as_on0": k % 2 == 0, "vel": 0})
+            t = target
+    return {"tpb": tpb, "tracks": [evs], "groups": [[0]], "meta": [0], "target": 0, "writer": rng.choice(["mido", "raw"]),
+            "neartie": True}
+
+
 def c13_expect(f):
     tpb = f["tpb"]
     ntracks = len(f["tracks"])
@@ -1058,16 +1121,34 @@ class LoadWorld:
         return None
 
 
+ENDURANCE = {"quick": 4, "thorough": 64}
+ENDURANCE_SIZES = {"quick": (45000, 60000), "thorough": (60000, 90000, 110000)}
+
+
 def c13_run_one(seed, tier, index):
     rng = random.Random(seed)
     lane = "baseline" if rng.random() < 0.3 else "fault"
-    f = gen_c13_file(rng, tier)
+    # endurance runs are spread one per work chunk (chunk size 100) so that they run in parallel
+    if index % 100 == 0 and index // 100 < ENDURANCE.get(tier, 0):
+        f = gen_c13_endurance(rng, ENDURANCE_SIZES.get(tier, (45000,)))
+        init = {"file": f}
+        world = LoadWorld(init)
+        world.stats["lane/endurance_runs"] += 1
+        ev = {"op": "load", "plan": {"kind": "none", "buf": 8192} if rng.random() < 0.7 else
+              {"kind": "short", "pattern": rng.randrange(1, 1 << 20), "buf": 8192}}
+        viol = world.apply(ev, 0)
+        return _c13_result(world, viol, {"engine": "simdisk/C13", "seed": seed, "lane": "endurance", "init": init, "events": [ev]})
+    if rng.random() < (0.01 if tier == "quick" else 0.02):
+        f = gen_c13_neartie(rng)
+        lane = "neartie"
+    else:
+        f = gen_c13_file(rng, tier)
     init = {"file": f}
     world = LoadWorld(init)
     events = []
     viol = None
-    for _ in range(1 if lane == "baseline" else rng.choice([1, 2, 3])):
-        ev = {"op": "load", "plan": {"kind": "none", "buf": 8192} if lane == "baseline" else gen_plan(rng, "r", world.size)}
+    for _ in range(1 if lane in ("baseline", "neartie") else rng.choice([1, 2, 3])):
+        ev = {"op": "load", "plan": {"kind": "none", "buf": 8192} if lane in ("baseline", "neartie") else gen_plan(rng, "r", world.size)}
         events.append(ev)
         viol = world.apply(ev, len(events) - 1)
         if viol is not None or world.foreign:
@@ -1152,6 +1233,10 @@ class C13Engine(_DiskEngine):
         "track groups are disjoint (a grouping is a partition of a subset of the tracks, possibly in non-ascending order); a track "
         "listed in two groups is outside the domain explored (the loader gives it to the first group only)",
     ]
+
+    @staticmethod
+    def timeout_for(index, tier):
+        return 600 if (index % 100 == 0 and index // 100 < ENDURANCE.get(tier, 0)) else None
 
     @staticmethod
     def run_one(seed, tier, index):
